@@ -235,13 +235,14 @@ class _Base(Space):
 
 
 class ChunkSpace(_Base):
-    """every op x every chunk decomposition of the raster (one coordinate configuration, float64)."""
+    """every op x every chunk decomposition of the raster (one coordinate configuration, float64).
+    stride > 1 (quick tier, secondary ops only): every stride-th chunking of the canonical list, offset 1."""
 
     def __init__(self, tier, group, opnames, stride=1):
         self.tier = tier
         self.shape = SHAPE[tier]
         self.opnames = opnames
-        self.chunkings = chunkings(*self.shape)[::stride]
+        self.chunkings = chunkings(*self.shape)[(1 if stride > 1 else 0)::stride]
         self.name = "chunk_%s_%dx%d" % (group, *self.shape)
         self.size = len(opnames) * len(self.chunkings)
         self.weight = 3.0
@@ -308,9 +309,9 @@ class NonFiniteSpace(_Base):
         self.shape = SHAPE["quick"]
         h, w = self.shape
         self.opnames = opnames
-        self.chs = [((2, 2), (2, 3)), ((1, 3), (4, 1)), ((1, 1, 1, 1), (1, 1, 1, 1, 1))]
+        self.chs = [((2, 2), (2, 3)), ((1, 3), (4, 1))]
         if tier == "thorough":
-            self.chs += [((3, 1), (1, 2, 2)), ((4,), (1, 4)), ((2, 1, 1), (5,))]
+            self.chs += [((1, 1, 1, 1), (1, 1, 1, 1, 1)), ((3, 1), (1, 2, 2)), ((4,), (1, 4)), ((2, 1, 1), (5,))]
         self.name = "nonfinite_cell_4x5"
         self.radices = [len(opnames), h * w, len(NONFINITE), len(self.chs)]
         self.size = int(np.prod(self.radices))
@@ -486,14 +487,18 @@ def _names(tier):
 
 def build(tier):
     terrain, focal, cell1, two, three, gens = _names(tier)
+    q = tier == "quick"
+    focal_main = [f for f in focal if f.startswith(("apply_mean_", "convolution_", "hotspots_"))] if q else focal
+    focal_rest = [f for f in focal if f not in focal_main]
     spaces = [
         ChunkSpace(tier, "terrain_mean", terrain),
-        ChunkSpace(tier, "focal_kernels", focal),
+        ChunkSpace(tier, "focal_kernels", focal_main),
         ChunkSpace(tier, "classify_spectral", cell1 + two + three),
         ChunkSpace(tier, "perlin", gens[:2]),
         ChunkSpace(tier, "generate_terrain", gens[2:], stride=16 if tier == "quick" else 4),
-        MultiSpace(tier, two, three),
-        NonFiniteSpace(tier, terrain + [f for f in focal if "3x3" in f or "3x5" in f or "5x3" in f or "1x3" in f]
+        MultiSpace(tier, two if not q else ["ndvi", "savi_sf0.25", "gci"], three if not q else ["evi", "true_color"]),
+        NonFiniteSpace(tier, terrain + [f for f in focal if ("3x3" in f or "3x5" in f or "5x3" in f or "1x3" in f)
+                                        and (not q or f.startswith(("apply_mean_", "convolution_", "hotspots_", "focal_stats_3x3")))]
                        + cell1 + ["ndvi", "evi", "true_color"]),
         DtypeCellsizeSpace(tier, terrain + [f for f in focal if "3x5" in f or "5x3" in f] + cell1 + ["ndvi", "savi", "arvi",
                                                                                                    "true_color"] + gens[:3]),
@@ -504,5 +509,6 @@ def build(tier):
                             "convolution_5x5", "binary", "equal_interval_k3", "ndvi", "evi", "true_color", "perlin"]
                      + (["generate_terrain"] if tier == "thorough" else [])),
     ]
-    # the chunk space name for the generators would clash: rename by group (done in constructor)
+    if focal_rest:
+        spaces.insert(2, ChunkSpace(tier, "focal_kernels_secondary", focal_rest, stride=4))
     return spaces
